@@ -312,6 +312,7 @@ public:
                 if (body_.compare_exchange_weak(expected, desired,
                                                 std::memory_order_acq_rel,
                                                 std::memory_order_acquire)) {
+                    YAKUSHIMA_VERIF_EVENT(EV_LOCK_ACQ, this, 0, 0);
                     return;
                 }
             }
@@ -366,6 +367,7 @@ public:
 
     void set_body(const node_version64_body newv) {
         YAKUSHIMA_VERIF_YIELD(Y_STORE | Y_CAT_NODE, this);
+        YAKUSHIMA_VERIF_EVENT(EV_VERSION_STORE, this, body_.load(std::memory_order_acquire).get_locked() ? 1 : 0, newv.get_locked() ? 1 : 0);
         body_.store(newv, std::memory_order_release);
     }
 
@@ -391,6 +393,7 @@ public:
             if (body_.compare_exchange_weak(expected, desired,
                                             std::memory_order_acq_rel,
                                             std::memory_order_acquire)) {
+                YAKUSHIMA_VERIF_EVENT(EV_LOCK_REL, this, 0, 0);
                 break;
             }
         }
